@@ -15,11 +15,21 @@ from ..steps import check_wrapper, returned_name, run_block, split_while, workli
 REP = [D(1, 1, 1), D(0, 1, 1), D(1, 1, 2), D(1, 2, 2), D(0, 1, 2), D(2, 2, 2), D(2, 3, 3)]
 
 
-def build_tree(mb: ModelBuilder, spec: Any, name: str = "root") -> AObj:
-    """spec: list of relations; relation = (min, max, [child specs]); child spec = same list."""
+def build_tree(mb: ModelBuilder, spec: Any, name: str = "root", look_alike: bool = False) -> AObj:
+    """spec: list of relations; relation = (min, max, [child specs]); child spec = same list.
+    look_alike: sibling names differ only in letter case, pairwise (a, A, b, B, ...): legal, distinct names."""
     f = mb.feature(name)
+    k = 0
     for i, (lo, hi, kids) in enumerate(spec):
-        ch = [build_tree(mb, k, f"{name}.{i}.{j}") for j, k in enumerate(kids)]
+        ch = []
+        for j, kid in enumerate(kids):
+            if look_alike:
+                letter = chr(ord("a") + k // 2)
+                cname = f"{name}.{letter.upper() if k % 2 else letter}"
+            else:
+                cname = f"{name}.{i}.{j}"
+            k += 1
+            ch.append(build_tree(mb, kid, cname, look_alike))
         mb.relation(f, ch, lo, hi)
     return f
 
@@ -32,6 +42,16 @@ TREES: dict[str, Any] = {
     "bushy": [(0, 1, [[]]), (1, 2, [[], [(1, 1, [[(1, 1, [[], []])]])]]), (1, 1, [[]])],
     "two-groups": [(1, 1, [[], [], []]), (0, 1, [[], [(0, 1, [[]])]])],
 }
+# sibling names that differ only in case: a mandatory beside an optional look-alike, two look-alike group
+# members that are both variation points, look-alike leaves at different depths
+LOOK_ALIKE = [(1, 1, [[(1, 1, [[]]), (0, 1, [[]])]]), (0, 1, [[]]),
+              (1, 1, [[(0, 1, [[]])], [(1, 2, [[], []])]])]
+
+
+def tree_models(mb: ModelBuilder) -> dict[str, AObj]:
+    ms = {k: mb.model(build_tree(mb, spec), []) for k, spec in TREES.items()}
+    ms["look-alike-names"] = mb.model(build_tree(mb, LOOK_ALIKE, "root", True), [])
+    return ms
 
 
 def tree_stats(spec: Any, depth: int = 0) -> dict[str, Any]:
@@ -79,9 +99,9 @@ def check(pm: ProgramModel, ctx: Ctx) -> None:
         except AbsRaise as exc:
             return ("raise", exc.what)
 
-    for tname, spec in TREES.items():
+    for tname, spec in list(TREES.items()) + [("look-alike-names", LOOK_ALIKE)]:
         st = tree_stats(spec)
-        root = build_tree(mb, spec)
+        root = build_tree(mb, spec, "root", tname == "look-alike-names")
         fm = mb.model(root, [])
         total_key = "root-only" if tname == "root-only" else "trees"
         # leaves
@@ -182,7 +202,7 @@ def check(pm: ProgramModel, ctx: Ctx) -> None:
     # ancestors wrapper takes the feature from a setter
     anc = pm.cls("FMFeatureAncestors")
     it = Interp(pm)
-    it.native[ga.qual] = lambda f: ("ANC", f)
+    it.native[ga.qual] = it.signature_stub(ga, lambda f, *r: ("ANC", f))
     op = AObj("FMFeatureAncestors")
     f1, f2 = mb.feature("f1"), mb.feature("f2")
     try:
@@ -318,7 +338,7 @@ def variation_points_whole(pm: ProgramModel, ctx: Ctx, mb: ModelBuilder, fn: Any
     # whole function on the tree family
     from ..model import rich_model
     from ..roundtrip import features as all_features
-    models = {k: mb.model(build_tree(mb, spec), []) for k, spec in TREES.items()}
+    models = tree_models(mb)
     models["rich"] = rich_model(mb)
     for name, m in models.items():
         try:
